@@ -298,7 +298,7 @@ def run_case(case, R):
         raise HarnessError('generator broke its own precondition')
     for c in g.columnlist:
         lay = g.column_surface_layer(c)
-        if not (c.surface - lay.bottom >= 2 * snap * (1 - 1e-9)):
+        if not (c.surface - lay.bottom >= 2 * snap * (1 - 1e-9) - 4e-16 * max(1.0, abs(float(c.surface)), abs(float(lay.bottom)))):      # (round-off of elevations far from the datum)
             raise HarnessError('generator produced a surface block thinner than 2 x layer_snap')
     kinds = set()
     for c in g.columnlist:
